@@ -245,6 +245,9 @@ impl ActorCell {
             crate::registry::register(r_name.clone(), cell.clone())?;
         }
 
+        // verif: the window between the two registry operations of `new`
+        #[cfg(all(feature = "verif", feature = "cluster"))]
+        crate::verif::point("new.reg_pid");
         #[cfg(feature = "cluster")]
         if let Err(err) = crate::registry::pid_registry::register_pid(cell.get_id(), cell.clone()) {
             if let Some(r_name) = &name {
